@@ -56,7 +56,7 @@ pub fn check(c: &Case) -> CheckResult {
     }
 }
 
-fn decode_strategy() -> impl Strategy<Value = Case> {
+pub fn decode_strategy() -> impl Strategy<Value = Case> {
     any::<bool>().prop_flat_map(|storage| gb::hostile(storage).prop_map(move |buf| Case::Decode { buf, storage }))
 }
 
